@@ -108,7 +108,8 @@ def ref_aggregate(records, agg="sum"):
     for key, v in records:
         acc.setdefault(key, []).append(v)
     f = {"sum": sum, "min": min, "max": max, "first": lambda l: l[0], "last": lambda l: l[-1],
-         "mean": lambda l: sum(l) / len(l)}[agg]
+         "mean": lambda l: sum(l) / len(l), "count": len, "size": len, "nunique": lambda l: len(set(l)),
+         "sum+1000": lambda l: sum(l) + 1000}[agg]
     return {k: f(l) for k, l in acc.items()}
 
 
